@@ -180,6 +180,20 @@ claim("C19",
       "significant digits; stub prior; known finding F25 (rep_lim=0).",
       "TLA+ design models checked by TLC + TLC behaviour emission + TLC trace validation", "5/C19")
 
+claim("C17",
+      "TLC checks LinAdjust.tla exhaustively (all row multisets over small integer data with non-finite markers, 1-2 regressors, 1-2 "
+      "parameters, n<=3-5): centred normal equations and least-squares optimality of the Cramer slope, theta - X.b, finite-mask-only, "
+      "fixed-point row, invariance under integer affine maps of determinant +-1, +-2; and ModelCompare.tla exhaustively (2-3 models, free tie "
+      "order at the n_min cut): shares of the jointly smallest, sum to one, proportionality, permutation equivariance.  Five negative controls "
+      "are refuted.  Real adjust_posterior and compare_models calls on real elfi Sample objects (built directly and by real Rejection runs, "
+      "with inf/nan in summaries, parameters and discrepancies, and an ElfiModel giving the observed summaries), followed by calls on "
+      "affinely re-expressed summaries and permuted model lists, are validated by TLC against LinAdjust_Trace / ModelCompare_Trace, which "
+      "recompute the expected values from the logged inputs in exact rational arithmetic (unit 1e-6).",
+      "Small-scope; value comparison only where the LS slope is unique and cond <= 1e4, on integer data where float error < 1e-12; "
+      "rank-deficient designs and parameters without finite rows are not decided (only mask length and fixed-point row); sklearn "
+      "LinearRegression is the engine the code delegates to (its result is checked, not trusted); free tie order at the n_min cut.",
+      "TLA+ design models checked by TLC + TLC trace validation of logged real calls", "5/C17")
+
 ALL = ["C%02d" % i for i in range(1, 21)]
 
 
